@@ -5,6 +5,7 @@
 //
 //   op src     kind a b        (which valid file: events / gA pdf / gA ocdf / catalogue list; a,b choose content)
 //   op trunc   k               | flip pos xor | setbyte pos chidx | zero pos len | drop pos len | dup pos len
+//   op tok idx mode header_biased   (a field overwritten by a neighbouring field / an edge value / doubled)
 //   op dropline n | dupline n | empty | splice pos src taillen at_line_boundary  (new head + stale tail of another file)
 //   op rfault  kind arg        (in flight: 1 short reads, 3 EIO from read #arg)
 //   op use     start max       (events: reader window)
@@ -104,6 +105,32 @@ std::string damage(std::string d, const Plan & plan, Outcome & out)
       size_t tl = std::min<size_t>((size_t)op.arg(2), old.size());
       d = d.substr(0, cut) + old.substr(old.size() - tl);
       out.ctr["fault_stale_tail_spliced"]++;
+    }
+    else if (op.k == "tok") {
+      // field-granular damage (the one operator that looks at the text structure): a whitespace-delimited token is
+      // overwritten by a neighbouring token (misdirected write at field granularity), by an edge value, doubled or deleted
+      std::vector<std::pair<size_t, size_t>> toks; // (begin, length)
+      for (size_t i = 0; i < n;) {
+        while (i < n && isspace((unsigned char)d[i])) i++;
+        size_t b = i; while (i < n && !isspace((unsigned char)d[i])) i++;
+        if (i > b) toks.push_back({b, i - b});
+      }
+      if (!toks.empty()) {
+        // skip leading comment lines when counting "header" tokens: a header token is one of the first 12 on non-comment lines
+        std::vector<size_t> data_toks;
+        for (size_t t = 0; t < toks.size(); t++) { size_t ls = d.rfind('\n', toks[t].first); ls = ls == std::string::npos ? 0 : ls + 1; if (d[ls] != '#') data_toks.push_back(t); }
+        if (data_toks.empty()) for (size_t t = 0; t < toks.size(); t++) data_toks.push_back(t);
+        size_t pick = (op.arg(2) && data_toks.size() > 12) ? (size_t)(op.arg(0) % 12) : (size_t)(op.arg(0) % (i64)data_toks.size());
+        size_t ti = data_toks[pick];
+        static const char * EDGE[] = {"0", "-1", "1e999", "nan", "inf", "-0.0", "1", "4294967296", "1e-320"};
+        i64 mode = op.arg(1) % 14;
+        std::string repl;
+        if (mode < 4) { size_t src = mode < 2 ? (ti > 0 ? ti - 1 : ti) : (ti + 1 < toks.size() ? ti + 1 : ti); if (mode == 1 && ti > 1) src = ti - 2; if (mode == 3 && ti + 2 < toks.size()) src = ti + 2; repl = d.substr(toks[src].first, toks[src].second); }
+        else if (mode < 13) repl = EDGE[mode - 4];
+        else repl = d.substr(toks[ti].first, toks[ti].second) + " " + d.substr(toks[ti].first, toks[ti].second);
+        d = d.substr(0, toks[ti].first) + repl + d.substr(toks[ti].first + toks[ti].second);
+        out.ctr["fault_field_overwritten"]++;
+      }
     }
     else if (op.k == "empty") { d.clear(); out.ctr["fault_empty_file"]++; }
   }
@@ -383,8 +410,9 @@ void gen_faults(Rng & r, Plan & p, size_t approx_size, bool allow_inflight)
     else if (d < 76) { o.k = "drop"; o.a = {r.chance(0.5) ? (pos / 512) * 512 : pos, r.chance(0.5) ? 512 : r.range(1, 64)}; }
     else if (d < 82) { o.k = "dup"; o.a = {r.chance(0.5) ? (pos / 512) * 512 : pos, r.chance(0.5) ? 512 : r.range(1, 64)}; }
     else if (d < 89) { o.k = "dropline"; o.a = {(i64)r.below(60)}; }
-    else if (d < 93) { o.k = "dupline"; o.a = {(i64)r.below(60)}; }
-    else if (d < 97) { o.k = "splice"; o.a = {(i64)r.below(approx_size + 1), (i64)r.below(9), r.chance(0.5) ? r.range(1, 12) : r.range(13, 600), (i64)r.chance(0.6)}; }
+    else if (d < 92) { o.k = "dupline"; o.a = {(i64)r.below(60)}; }
+    else if (d < 95) { o.k = "tok"; o.a = {(i64)r.below(4000), (i64)r.below(14), (i64)r.chance(0.6)}; }
+    else if (d < 98) { o.k = "splice"; o.a = {(i64)r.below(approx_size + 1), (i64)r.below(9), r.chance(0.5) ? r.range(1, 12) : r.range(13, 600), (i64)r.chance(0.6)}; }
     else { o.k = "empty"; }
     p.ops.push_back(o);
   }
